@@ -429,12 +429,63 @@ theorem clsNonWord_compl (c : Nat) (h : clsNonWord.mem c = false) : isWordChar c
   simp_all
   omega
 
-theorem nonWordRuleC : HasNonWordRule cfgC :=
-  ⟨[c_rules_all_0, c_rules_all_1], clsNonWord, [], by decide, clsNonWord_compl⟩
-theorem nonWordRuleCpp : HasNonWordRule cfgCpp :=
-  ⟨[cpp_rules_all_0], clsNonWord, [cpp_rules_all_2, cpp_rules_all_3], by decide, clsNonWord_compl⟩
-theorem nonWordRulePy : HasNonWordRule cfgPy :=
-  ⟨[py_rules_all_0], clsNonWord, [], by decide, clsNonWord_compl⟩
+/-- a range of word characters only (syntactic) -/
+def wordRange (p : Nat × Nat) : Bool :=
+  (decide (97 ≤ p.1) && decide (p.2 ≤ 122)) || (decide (65 ≤ p.1) && decide (p.2 ≤ 90)) ||
+  (decide (48 ≤ p.1) && decide (p.2 ≤ 57)) || (p.1 == 95 && p.2 == 95)
+
+/-- the complement of the class consists of word characters (syntactic): a negated union of word ranges -/
+def complIsWord (K : Cls) : Bool := K.neg && K.ranges.all wordRange
+
+theorem complIsWord_sound (K : Cls) (h : complIsWord K = true) (c : Nat) (hc : K.mem c = false) :
+    isWordChar c = true := by
+  obtain ⟨neg, ranges⟩ := K
+  simp only [complIsWord, Bool.and_eq_true, List.all_eq_true] at h
+  obtain ⟨hn, hr⟩ := h
+  subst hn
+  have hin : inRanges ranges c = true := by
+    cases hx : inRanges ranges c with
+    | true => rfl
+    | false => simp [Cls.mem, hx] at hc
+  clear hc
+  induction ranges with
+  | nil => simp [inRanges] at hin
+  | cons p rest ih =>
+    obtain ⟨lo, hi⟩ := p
+    simp only [inRanges, Bool.or_eq_true, Bool.and_eq_true, decide_eq_true_eq] at hin
+    rcases hin with ⟨h1, h2⟩ | hin
+    · have := hr (lo, hi) (by simp)
+      simp only [wordRange, Bool.or_eq_true, Bool.and_eq_true, decide_eq_true_eq, beq_iff_eq] at this
+      unfold isWordChar
+      simp only [Bool.or_eq_true, Bool.and_eq_true, decide_eq_true_eq, beq_iff_eq]
+      omega
+    · exact ih (fun q hq => hr q (by simp [hq])) hin
+
+/-- is the rule of the form `[K]+` with a word-character complement? -/
+def isNonWordPlus : Re → Bool
+  | .rep 1 none (.chr K) => complIsWord K
+  | _ => false
+
+/-- decidable form of `HasNonWordRule`: some `all` rule, wherever it stands in the list, is `[K]+` as above -/
+def hasNonWordRuleB (cfg : Cfg) : Bool := ((lookup cfg.rules tyAll).getD []).any isNonWordPlus
+
+theorem hasNonWordRule_of (cfg : Cfg) (h : hasNonWordRuleB cfg = true) : HasNonWordRule cfg := by
+  unfold hasNonWordRuleB at h
+  cases hl : lookup cfg.rules tyAll with
+  | none => simp [hl] at h
+  | some rs =>
+    simp only [hl, Option.getD_some, List.any_eq_true] at h
+    obtain ⟨r, hr, hk⟩ := h
+    obtain ⟨pre, post, hsplit⟩ := List.append_of_mem hr
+    unfold isNonWordPlus at hk
+    split at hk
+    · rename_i K
+      exact ⟨pre, K, post, by rw [hl, hsplit], complIsWord_sound K hk⟩
+    · cases hk
+
+theorem nonWordRuleC : HasNonWordRule cfgC := hasNonWordRule_of _ (by decide)
+theorem nonWordRuleCpp : HasNonWordRule cfgCpp := hasNonWordRule_of _ (by decide)
+theorem nonWordRulePy : HasNonWordRule cfgPy := hasNonWordRule_of _ (by decide)
 
 theorem clsDigit_ascii (c : Nat) (h1 : 48 ≤ c) (h2 : c ≤ 57) : clsDigit.mem c = true := by
   have h : ∀ k : Fin 10, clsDigit.mem (48 + k.val) = true := by decide
@@ -458,17 +509,29 @@ theorem reLeadingDigit_matches (c : Nat) (t : Str) (h1 : 48 ≤ c) (h2 : c ≤ 5
     matchesStart reLeadingDigit (c :: t) = true := by
   unfold reLeadingDigit; rw [matchesStart_bol_cls1]; exact clsDigit_ascii c h1 h2
 
-theorem catchesDigitC : CatchesLeadingDigit cfgC := fun c t h1 h2 =>
-  Or.inr (encodeDry_of_mem (rs := [c_rules_all_0, c_rules_all_1, c_rules_all_2]) (r := reLeadingDigit)
-    (by decide) (by decide) (reLeadingDigit_matches c t h1 h2))
+/-- decidable form of `CatchesLeadingDigit`: `^\\d{1}` occurs somewhere among the `all` patterns or `all` rules -/
+def catchesDigitB (cfg : Cfg) : Bool :=
+  ((lookup cfg.patterns tyAll).getD []).contains reLeadingDigit ||
+  ((lookup cfg.rules tyAll).getD []).contains reLeadingDigit
 
-theorem catchesDigitCpp : CatchesLeadingDigit cfgCpp := fun c t h1 h2 =>
-  Or.inl (patDry_of_mem (rs := [cpp_patterns_all_0, cpp_patterns_all_1]) (r := reLeadingDigit)
-    (by decide) (by decide) (reLeadingDigit_matches c t h1 h2))
+theorem catchesDigit_of (cfg : Cfg) (h : catchesDigitB cfg = true) : CatchesLeadingDigit cfg := by
+  intro c t h1 h2
+  simp only [catchesDigitB, Bool.or_eq_true, List.contains_iff_mem] at h
+  rcases h with h | h
+  · cases hl : lookup cfg.patterns tyAll with
+    | none => simp [hl] at h
+    | some rs =>
+      simp only [hl, Option.getD_some] at h
+      exact Or.inl (patDry_of_mem hl h (reLeadingDigit_matches c t h1 h2))
+  · cases hl : lookup cfg.rules tyAll with
+    | none => simp [hl] at h
+    | some rs =>
+      simp only [hl, Option.getD_some] at h
+      exact Or.inr (encodeDry_of_mem hl h (reLeadingDigit_matches c t h1 h2))
 
-theorem catchesDigitPy : CatchesLeadingDigit cfgPy := fun c t h1 h2 =>
-  Or.inr (encodeDry_of_mem (rs := [py_rules_all_0, py_rules_all_1]) (r := reLeadingDigit)
-    (by decide) (by decide) (reLeadingDigit_matches c t h1 h2))
+theorem catchesDigitC : CatchesLeadingDigit cfgC := catchesDigit_of _ (by decide)
+theorem catchesDigitCpp : CatchesLeadingDigit cfgCpp := catchesDigit_of _ (by decide)
+theorem catchesDigitPy : CatchesLeadingDigit cfgPy := catchesDigit_of _ (by decide)
 
 end shipped
 
